@@ -90,26 +90,32 @@ class Case:
         return gen_body(self.bodytok)
 
 
-_body_cache = {}
+_blk_cache = {}
+BLK = 65521
 
 
 def gen_body(tok):
+    """test body of a case: literal hex, or a pseudo-random block (LCG) of up to 65521 bytes repeated"""
     if tok == "-":
         return b""
     if tok[0] == "h":
         return C.unhx(tok[1:])
-    if tok in _body_cache:
-        return _body_cache[tok]
     ln, seed = (int(x) for x in tok[1:].split("."))
-    x = seed & 0x7fffffff
-    out = bytearray(ln)
-    for i in range(ln):
-        x = (x * 1103515245 + 12345) & 0x7fffffff
-        out[i] = (x >> 16) & 0xff
-    if len(_body_cache) > 64:
-        _body_cache.clear()
-    _body_cache[tok] = bytes(out)
-    return _body_cache[tok]
+    n = min(ln, BLK)
+    blk = _blk_cache.get(seed)
+    if blk is None or len(blk) < n:
+        x = seed & 0x7fffffff
+        out = bytearray(n)
+        for i in range(n):
+            x = (x * 1103515245 + 12345) & 0x7fffffff
+            out[i] = (x >> 16) & 0xff
+        blk = bytes(out)
+        if len(_blk_cache) > 4096:
+            _blk_cache.clear()
+        _blk_cache[seed] = blk
+    if ln <= BLK:
+        return blk[:ln]
+    return (blk * (ln // BLK + 1))[:ln]
 
 
 # ----------------------------------------------------------------------------- independent decoders
